@@ -669,6 +669,33 @@ static void check_flof(vbi_decoder *vbi, const struct mpage *m, const char *when
 	vbi_unref_page(&pg);
 }
 
+/* A page received without X/27/0 (or erased since): with navigation requested row 24 still shows what was
+ * transmitted ("the transmitted characters at their rows and columns"; the generated networks have no TOP tables),
+ * nothing is generated from links that were never sent. */
+static void check_no_flof(vbi_decoder *vbi, const struct mpage *m, const char *when)
+{
+	static vbi_page pn, pf;
+	int c;
+	memset(&pn, 0xEE, sizeof pn); memset(&pf, 0xEE, sizeof pf);
+	vf_phase("vbi_fetch_vt_page");
+	if (!vbi_fetch_vt_page(vbi, &pf, m->pgno, m->subno, VBI_WST_LEVEL_1p5, 25, FALSE)) return;
+	if (!vbi_fetch_vt_page(vbi, &pn, m->pgno, m->subno, VBI_WST_LEVEL_1p5, 25, TRUE)) { vbi_unref_page(&pf); return; }
+	for (c = 0; c < 40; c++) {
+		const vbi_char *a = &pn.text[24 * pn.columns + c], *b = &pf.text[24 * pf.columns + c];
+		if (a->unicode != b->unicode || a->foreground != b->foreground || a->background != b->background || a->size != b->size) {
+			char t[41]; int k;
+			for (k = 0; k < 40; k++) { unsigned u = pn.text[24 * pn.columns + k].unicode; t[k] = (u >= 0x20 && u < 0x7F) ? (char)u : '?'; }
+			t[40] = 0;
+			vf_fail("model:C02:row24-generated-without-flof", "%s: page %03x/%02x was received without X/27/0 (row 24 %s); fetched with navigation row 24 reads \"%s\", column %d U+%04X fg %d, without navigation U+%04X fg %d; nav_link[0] = %03x/%04x",
+				when, m->pgno, m->subno, (m->have & (1u << 24)) ? "transmitted" : "not transmitted", t, c, a->unicode, a->foreground, b->unicode, b->foreground,
+				(unsigned)pn.nav_link[0].pgno & 0xFFF, (unsigned)pn.nav_link[0].subno & 0xFFFF);
+			break;
+		}
+	}
+	vf_count("pages_without_flof_checked", 1);
+	vbi_unref_page(&pn); vbi_unref_page(&pf);
+}
+
 static void at_termination(vbi_decoder *vbi, int ti)
 {
 	struct tx *t = &txs[ti];
@@ -710,6 +737,7 @@ static void at_termination(vbi_decoder *vbi, int ti)
 	if (!HARD_FAILED())
 		check_fetch(vbi, m, had_prev ? &prev : NULL, t, VBI_WST_LEVEL_1p5, "at termination");
 	if (m->has_flof) check_flof(vbi, m, "at termination");
+	else check_no_flof(vbi, m, "at termination");
 
 	vf_phase("vbi_is_cached");
 	if (!vbi_is_cached(vbi, t->pgno, t->subno))
